@@ -138,6 +138,27 @@ def _lib_generated(rng):
             "options": dict(rng.choice(OPTION_SWARM)), "api": rng.choice(["raw", "common"]), "force_cyclic": False}
 
 
+BRANCH_DRAWS = ["DiscreteUniform(1, 3)", "DiscreteUniform(0, 2)", "Categorical(1/2, 1/4, 1/4)", "Categorical(1/3, 1/3, 1/3)", "Bernoulli(1/3)"]
+
+
+def _lib_branch_draw(rng):
+    """small programs over a small space of finite draws, drawn inside a branch or at top level: distribution objects,
+    their supports and moments must not be shared between the programs of a process"""
+    return _branch_draw_variant(rng, rng.choice(BRANCH_DRAWS), rng.random() < 0.5)
+
+
+def _branch_draw_variant(rng, d, in_branch):
+    if in_branch:
+        text = f"x = 0\nc = 0\nwhile true:\n    c = Bernoulli(1/2)\n    if c == 1:\n        x = {d}\n    end\nend\n"
+        goals = [{"monom": rng.choice(["x", "x**2", "c*x"]), "kind": "raw"}]
+    else:
+        k = rng.choice([1, 2])
+        text = f"y = 1\nz = 0\nwhile true:\n    y = {d}\n    if y == {k}:\n        z = z + 1\n    end\nend\n"
+        goals = [{"monom": rng.choice(["z", "y", "y**2", "z*y"]), "kind": "raw"}]
+    return {"kind": "lib", "pid": "brd:" + hashlib.sha256(text.encode()).hexdigest()[:10], "program": {"text": text}, "goals": goals,
+            "options": dict(rng.choice(OPTION_SWARM[:6])), "api": rng.choice(["raw", "common"]), "force_cyclic": False}
+
+
 def _lib_error(rng):
     c = corpus()
     r = rng.random()
@@ -223,10 +244,15 @@ def gen_case(seed, extra=None):
     pid_pool = []
     while len(sessions) < nsess:
         r = rng.random()
-        if r < 0.5:
+        if r < 0.42:
             s = _lib_from_corpus(rng, pid_pool)
         elif r < 0.68:
             s = _lib_generated(rng)
+        elif r < 0.74:
+            # a pair over the same draw: once inside a branch, once at top level
+            d = rng.choice(BRANCH_DRAWS)
+            sessions.append(_branch_draw_variant(rng, d, True))
+            s = _branch_draw_variant(rng, d, rng.random() < 0.3)
         elif r < 0.8:
             s = _lib_error(rng)
         elif r < 0.86:
@@ -238,7 +264,9 @@ def gen_case(seed, extra=None):
         sessions.append(s)
     if rng.random() < 0.35 and any(s["kind"] == "lib" for s in sessions):
         # the same program again, goals permuted
-        base = rng.choice([s for s in sessions if s["kind"] == "lib"])
+        libs = [s for s in sessions if s["kind"] == "lib"]
+        gens = [s for s in libs if str(s.get("pid", "")).startswith("gen:")]
+        base = rng.choice(gens) if gens and rng.random() < 0.7 else rng.choice(libs)
         dup = copy.deepcopy(base)
         rng.shuffle(dup["goals"])
         if rng.random() < 0.5:
